@@ -1126,6 +1126,9 @@ struct Explorer {
     for (auto& c : r.cmds) if (c.finished && c.status != 0) return;
     Violation x; x.prop = "C07"; x.clause = "next-invocation-fails";
     x.detail = "ninja exited " + to_string(r.exit_code) + " without any failed command: " + r.out.substr(0, 300);
+    // the manifest is itself an output of a generator statement and was removed with the other outputs of interrupted commands
+    x.facts.set("the_manifest_was_deleted_as_the_output_of_an_interrupted_generator",
+                sc.tags.count("manifest-regen") > 0 && r.out.find("loading 'build.ninja': No such file or directory") != string::npos);
     out->push_back(x);
   }
 
